@@ -396,6 +396,20 @@ func (sel *Selection) endEdit(r NodeRequest, bubble bool) error {
 }
 
 func (sel *Selection) Delete() (err error) {
+	if sel.parent == nil {
+		return fmt.Errorf("%w. the root of the data cannot be deleted", fc.BadRequestError)
+	}
+	if leaf, isLeaf := sel.Meta().(meta.Leafable); isLeaf {
+		// a leaf has no node of its own, it is a field of the node that holds it
+		if list, inList := sel.parent.Meta().(*meta.List); inList && sel.parent.InsideList {
+			for _, k := range list.KeyMeta() {
+				if k == leaf {
+					return fmt.Errorf("%w. %s is a key of %s and cannot be deleted", fc.BadRequestError, leaf.Ident(), list.Ident())
+				}
+			}
+		}
+		return sel.parent.ClearField(leaf)
+	}
 
 	// allow children to recieve indication their parent is being deleted by
 	// sending node request w/delete=true
@@ -501,6 +515,9 @@ func (sel *Selection) UpdateInto(toNode Node) error {
 }
 
 func (sel *Selection) ReplaceFrom(fromNode Node) error {
+	if meta.IsLeaf(sel.Meta()) {
+		return fmt.Errorf("%w. %s is a leaf: set its value instead of replacing it", fc.BadRequestError, sel.Meta().Ident())
+	}
 	parent := sel.parent
 	if err := sel.Delete(); err != nil {
 		return err
